@@ -300,6 +300,58 @@ T = {
     caught_by="C20.cancel_returns_all in hist mode with genesis round trips (VERIF_GENTRIP) and stored history corpus/C20-genesis-restart-order-id-reuse",
     history="MISSED at first (no history restarted a module from its exported genesis); fault kind genesisRoundTrip (ExportGenesis → InitGenesis of one module "
             "between blocks, harness/gentrip.go) added — which also exposed the same defect in the unchanged perpetual and leveragelp InitGenesis (fix 41f14ef); caught since"),
+ "C01-4": dict(
+    change="x/amm/keeper/route_exact_amount_in.go RouteExactAmountIn: all pools of a route are read once before the first hop",
+    needs="a multi-hop exact-in route that names the same pool twice (A -> B -> A): the second hop works on a copy read before the first and overwrites its reserves",
+    caught_by="C01.reserve_eq_held and C01.liquidity_eq_sum in hist mode",
+    history="MISSED at first (two-hop routes always went through two different pools); routes through the same pool twice added to the grammar; caught since"),
+ "C02-4": dict(
+    change="x/commitment/keeper/msg_server_unstake.go performUncommit: calls the keeper's denom-agnostic UncommitTokens (same mechanism as C15-3, found independently)",
+    needs="MsgUnstake with an LP share denom as asset by a holder of unlocked committed shares: shares become liquid outside the commitment custody",
+    caught_by="C02.shares_agree in hist mode (cm.unstakeOther is in the grammar since round 3)",
+    history="caught at first run"),
+ "C06-4": dict(
+    change="x/stablestake/genesis.go ExportGenesis: debts are exported through the read view GetDebt, which adds the pending interest and moves the checkpoint",
+    needs="an open loan with unsettled interest, then an export / import of the module's genesis: TotalValue misses the pending interest for ever",
+    caught_by="C06.vault_equation in hist mode with fault injection (genesis round trips)",
+    history="caught at first run"),
+ "C08-4": dict(
+    change="x/leveragelp/keeper/position_open.go ProcessOpenLong: UpdatePoolHealth (the only place that saves the pool) is skipped when nothing is borrowed",
+    needs="a consolidating re-open with leverage exactly 1, or a dust open whose borrowed part truncates to 0: the pool total misses the shares",
+    caught_by="C08.pool_eq_sum in hist mode",
+    history="MISSED at first (leverage was never 1 and collateral never dust); leverage-1 top-ups of existing positions and dust opens added to the grammar; caught since"),
+ "C09-4": dict(
+    change="x/perpetual/keeper/settle_funding_fee_collection.go FundingFeeCollection (short branch): pool custody reduced by the unconverted trading-asset amount",
+    needs="a pool with short open interest above long open interest above zero, a funding rate recorded later, then any settlement on a short, trading asset price != 1",
+    caught_by="C09.aggregates_eq_sum in hist mode",
+    history="caught at first run"),
+ "C12-4": dict(
+    change="x/amm/keeper/apply_exit_pool_state_change.go: the liquidation override passed to UncommitTokens is isLiquidation || !pool.UseOracle",
+    needs="shares joined to an oracle pool less than an hour ago, governance switches the pool's UseOracle off (MsgUpdatePoolParams), the owner exits before the lock expires",
+    caught_by="C12.lock_kept in hist mode with pool-parameter governance (VERIF_GOVPOOL run) and stored history corpus/C12-oracle-switch-flipped-under-lock",
+    history="MISSED at first (no history rewrote a pool's parameters); governance pool shocks added (oracle switch, swap fee; aimed at pools with locked holders, who then try to exit); caught since"),
+ "C13-4": dict(
+    change="x/stablestake/keeper/msg_server_unbond.go: AfterUnbond hook receives the redeemed USDC amount instead of the number of shares",
+    needs="stablestake redemption rate above 1 (interest paid by borrowers), a positive reward accumulator on the stablestake pool, then an unbond",
+    caught_by="C13.block_credit in hist mode",
+    history="caught at first run"),
+ "C15-4": dict(
+    change="x/amm/types/pool_exit_pool.go processExitPool: early return when no coin leaves the pool (same mechanism as C02-1, found independently for C15)",
+    needs="a dust exit from a non-oracle pool: share tokens are burned while the pool's TotalShares stays",
+    caught_by="C15.share_paired in hist mode",
+    history="MISSED at first by C15 (C02's check reports it): C15 judged share mints and burns only by the module that performs them; clause C15.share_paired added "
+            "(over a block a share denom's supply moves by exactly what its pool's TotalShares moves); caught since"),
+ "C18-4": dict(
+    change="x/estaking/modules/distribution/module.go AllocateEdenUsdcTokens / AllocateEdenBTokens: power fractions rounded to nearest (Quo) instead of truncated",
+    needs="distribution community tax 0 (permitted by validation), at least three fee-sharing validators (Eden and EdenB committed) whose rounded fractions sum above 1, fees to distribute: DecCoins.Sub panics in begin-block",
+    caught_by="C18.block_ok in hist mode with governance shocks and stored history corpus/C18-zero-community-tax-rounded-fractions",
+    history="MISSED at first (governance shocks covered elys' own messages only); distribution parameter shocks (community tax at boundary values) added; a quick run at seed 1 "
+            "still does not hit it, the stored history does; caught since"),
+ "C20-4": dict(
+    change="x/tradeshield/keeper/msg_server_execute_orders.go: one cache context shared by all orders of a message instead of one per order",
+    needs="one MsgExecuteOrders carrying an order that fails after moving funds, followed by one that succeeds: the failed attempt's writes are flushed",
+    caught_by="C20.escrow_holds in hist mode",
+    history="caught at first run"),
 }
 
 root = os.path.join(os.path.dirname(os.path.dirname(os.path.abspath(__file__))), "seeded")
